@@ -45,6 +45,7 @@ FIXED = [
  ("C11", "6af4326", "Array._update left the items before a failing item modified", "corpus/C11/sequence_in_whole_array_update.json"),
  ("C05", "d210566", "Ref slot bound in place an array of a same-named class with another axis order; the slot read other values than assigned", "corpus/C05/twin_axis_order_class_in_same_buffer.json"),
  ("C08", "d210566", "Ref slot aliased an array object of a same-named twin class (other axis order) living in the holder's buffer", "corpus/C08/twin_axis_order_bound_in_place.json"),
+ ("C17", "ce9eb0b", "an xobject scalar array living in a BufferByteArray was passed to kernels as the address of a temporary copy of its bytes", "corpus/C17/xarray_in_bytearray_buffer.json"),
  ("C06", "4d82184", "Array._update shrank the size header: other handles and views of the array kept the old _size, the reserved extent was forgotten", "corpus/C06/stale_size_after_whole_update.json"),
  ("C08", "29a1308", "UnionRef slot given a member's same-named twin class (other axis order): bound in place / copied as the twin, read back through the member class with other values", "corpus/C08/twin_axis_order_union_member.json"),
 ]
